@@ -241,6 +241,29 @@ func (r *Run) eval(e *Env, x *SX) *Val {
 			return &Val{K: KPtr, Ty: types.NewPointer(et), P: p}
 		}
 		return r.load(e.st, p)
+	case "callresult", "called":
+		// (callresult "callee" k i): i-th result of the k-th call of callee on this path; (called "callee" k)
+		k := "0"
+		if len(args) > 1 {
+			k = args[1].Atom
+		}
+		key := args[0].Atom + "#" + k
+		res, ok := e.st.calls[key]
+		if h == "called" {
+			if ok {
+				return boolVal("true")
+			}
+			return boolVal("false")
+		}
+		i := 0
+		if len(args) > 2 {
+			fmt.Sscanf(args[2].Atom, "%d", &i)
+		}
+		if !ok || i >= len(res) {
+			// the call did not happen on this path: an unconstrained value (guard with (called ...))
+			return opaque(r.fresh("nocall", "Int"))
+		}
+		return res[i]
 	case "elemarr":
 		v := r.eval(e, args[0])
 		if v.K != KSlice {
@@ -383,6 +406,14 @@ func (r *Run) eval(e *Env, x *SX) *Val {
 			return boolVal("false")
 		}
 		return boolVal(app("=", r.termOf(v), "0"))
+	}
+	if h == "=>" && len(args) == 2 {
+		prem := r.evalTerm(e, args[0])
+		if prem == "false" {
+			return boolVal("true")
+		}
+		concl := r.evalTerm(e, args[1])
+		return boolVal(implies(prem, concl))
 	}
 	// generic application: (head args...) with every argument evaluated to a term
 	var head string
